@@ -149,6 +149,7 @@ type FnCtx struct {
 	axioms         []axiomInst
 	usedAxioms     []string
 	attachErr      string
+	dropped        []string // written loop invariants that do not attach to the current loop
 	requiresTerms  []string
 	reqPrefix      int
 	houdiniObs     []*houdiniOb
